@@ -16,7 +16,7 @@ type senderCtx struct {
 	main, once, send *ssa.Function
 	sel              *ssa.Select
 	recvState        int
-	item             ssa.Value // the cmdExecution received from sendBuf in this iteration
+	item             ssa.Value  // the cmdExecution received from sendBuf in this iteration
 	itemCell         *ssa.Alloc // the local variable it is stored in, if any
 	head             *ssa.BasicBlock
 	queue            *ssa.Alloc // cmdQueue cell
@@ -359,6 +359,8 @@ func c07(w *core.World, r *core.Report) {
 	checkItemOffsets(w, r, "(*syncer.RedisOutput).parseAofCommand")
 
 	ruleUpdateCheckpoint(w, r, "R07.4", "R07.5")
+	r.Rule("R07.6", "the replay's start offset is the cache reader's reported position, and that is the requested offset (log reader) or the snapshot's own offset", 3)
+	ruleReplayStartOffset(w, r)
 	r.Rule("R07.3", "full-sync completion stores the snapshot's offset (reader.Left()) and nothing else", 1)
 	if f := fn(w, r, "(*syncer.RedisOutput).sendRdb"); f != nil {
 		n := 0
@@ -573,6 +575,7 @@ func c02(w *core.World, r *core.Report) {
 	}
 	r.Rule("R02.4", "resume database: StartPoint keeps GetCheckpoint's database; the parser emits SELECT(startDbId) before decoding", 3)
 	ruleResumeDb(w, r)
+	ruleDbTracking(w, r) // after a resume the parser must not assume a database (shared with R01.6)
 	r.Rule("R02.5", "newest checkpoint wins: replacement only under Offset greater, or equal with newer Mtime", 1)
 	ruleNewestCheckpoint(w, r)
 	r.Rule("R02.6", "barrier flush precedes queuing of the barrier item and its error edge returns", 2)
@@ -983,6 +986,10 @@ func c09(w *core.World, r *core.Report) {
 	if c != nil {
 		ruleBatchOrder(w, r, c, true)
 	}
+	r.Rule("R09.6", "transactional mode: every flush of queued commands, in every iteration, is sent inside MULTI/EXEC (see R02.7)", 1)
+	if c != nil {
+		ruleTxnFlushWrapped(w, r, c)
+	}
 }
 
 func (c *senderCtx) inTxnPhi() *ssa.Phi {
@@ -1329,4 +1336,22 @@ func ruleTxnFlushWrapped(w *core.World, r *core.Report, c *senderCtx) {
 		return
 	}
 	r.Check(bad == "", "sendCmdsBatch/txn-wrapped", badPos, "%s", bad)
+}
+
+// ruleReplayStartOffset: item offsets are start offset + decoder offset
+// (R07.2/R12.3); the start offset is what Send hands to sendAof, and that
+// must be the position the cache reader was opened at.
+func ruleReplayStartOffset(w *core.World, r *core.Report) {
+	if f := fn(w, r, "(*syncer.RedisOutput).SendAof"); f != nil {
+		n := 0
+		for _, s := range core.SitesNamed(f, false, "(*syncer.RedisOutput).sendAof") {
+			n++
+			a := s.Args()
+			r.Check(len(a) >= 4 && isIfaceCall(a[3], "ChannelReader.Left"), "SendAof/start-offset", s.Pos(), "the incremental replay must be started at reader.Left(), the position the cache reader was opened at")
+		}
+		if n == 0 {
+			r.Fail("SendAof/start-offset", f.Pos(), "no incremental replay call found")
+		}
+	}
+	ruleReaderLeft(w, r)
 }
